@@ -1,10 +1,16 @@
 (* C19 — recursive watches report true paths and cover exactly their own tree.  Statements only.
-   PARTIAL: the theorems below are about the bookkeeping functions (which watches are removed / rewritten / created,
-   and how events are named); the whole-history statement "every event name is the entry's current true path" needs a
-   filesystem model relating inodes to paths, which this development does not have — it is covered by the
-   correspondence harness only (recursive families: prefix-sharing siblings, one level at a time, inner renames). *)
+   Two layers:
+   (1) step level (Recurse.v): which watches are removed / rewritten / created by one call or one notification, and
+       how events are named;
+   (2) history level (RecurseHist.v): a ground-truth directory tree (inode ↦ true current path) evolving by mkdir one
+       level at a time, inner renames, file operations, recursive Add / Remove of one of several roots; every macro-step
+       expands to a valid System history (kernel notifications per the inotify contract, then the reader handles all of
+       them).  For ALL well-formed histories: every directory below a watched root is watched and listed under its TRUE
+       CURRENT PATH and nothing else is; the events delivered are exactly those computed from the tree alone.
+   The history layer is about the rename loop that re-keys watches.path together with the watch paths
+   (Watcher.rekey_paths); with the earlier loop the keys stayed at the old names (see the examples at the end). *)
 From stdpp Require Import gmap strings list.
-From Fsn Require Import PathLex Bytes Tables Doc Watcher System Recurse CfgLang Cfg CfgExtra.
+From Fsn Require Import PathLex Bytes Tables Doc Watcher System Recurse RecurseHist CfgLang Cfg CfgExtra.
 From FsnGen Require Import GenCfg.
 From FsnObl Require Import OblCfg.
 From Fsn Require PathLexProofs.
@@ -100,3 +106,150 @@ Print Assumptions C19_rename_spares_siblings.
 Print Assumptions C19_event_names.
 Print Assumptions C19_new_dir_covered.
 Print Assumptions C19_registered_before_create_is_sent.
+
+(* ------------------------------------------------------------------ the path index follows a rename *)
+(* When the index is exact (its keys are the watch paths), the skip conditions of the loop do not bite and no re-pathed
+   watch lands on the path of another watch, the re-keyed index is exact again for the new paths: no key of the old
+   location is left behind. *)
+Theorem C19_rename_rekeys_index : forall twd tpath skip old new,
+  (forall k wd, tpath !! k = Some wd <-> exists x, twd !! wd = Some x /\ w_path x = k) ->
+  (forall wd x, twd !! wd = Some x -> repathed skip old new x = is_under (w_path x) old) ->
+  (forall wd wd' x x', twd !! wd = Some x -> twd !! wd' = Some x' ->
+     moved_path old new (w_path x) = moved_path old new (w_path x') -> w_path x = w_path x') ->
+  forall k wd, rekey_paths twd tpath skip old new !! k = Some wd <->
+               exists x, twd !! wd = Some x /\ moved_path old new (w_path x) = k.
+Proof. exact rekey_paths_index. Qed.
+
+(* ------------------------------------------------------------------ whole histories (RecurseHist.v) *)
+(* after every well-formed macro-history from any initial tree: coverage with true paths, nothing stale or dangling,
+   queue drained *)
+Theorem C19_covered_all_histories : forall E0 h,
+  init_ok E0 = true -> mwf E0 h = true ->
+  let E := (mrun (E0, init_sys) h).1 in let s := (mrun (E0, init_sys) h).2 in
+  (forall r i p, r ∈ e_roots E -> e_tree E !! i = Some p -> is_under p r = true ->
+     exists wd x, marks (K s) !! wd = Some i /\ t_wd (W s) !! wd = Some x /\ w_wd x = wd /\ w_path x = p /\
+                  w_rec x = true /\ t_path (W s) !! p = Some wd) /\
+  (forall wd x, t_wd (W s) !! wd = Some x ->
+     exists i r, marks (K s) !! wd = Some i /\ e_tree E !! i = Some (w_path x) /\ r ∈ e_roots E /\
+                 is_under (w_path x) r = true /\ w_wd x = wd /\ w_rec x = true /\
+                 t_path (W s) !! w_path x = Some wd) /\
+  (forall k wd, t_path (W s) !! k = Some wd -> exists x, t_wd (W s) !! wd = Some x /\ w_path x = k) /\
+  (forall wd i, marks (K s) !! wd = Some i -> is_Some (t_wd (W s) !! wd)) /\
+  kq (K s) = [].
+Proof. exact (fun E0 h H0 Hwf => covered_spec _ _ (covered_run E0 h H0 Hwf)). Qed.
+
+(* the events delivered are exactly the expected ones, named by true paths and computed from the tree alone (steps
+   outside every watched tree expect — and deliver — nothing); no error is ever sent *)
+Theorem C19_events_true_paths_all_histories : forall E0 h,
+  init_ok E0 = true -> mwf E0 h = true ->
+  evs (mrun (E0, init_sys) h).2 = expected_all E0 h /\ errs (mrun (E0, init_sys) h).2 = [].
+Proof. exact events_true_paths. Qed.
+
+(* what is expected, step by step *)
+Theorem C19_expected_unfold : forall E st,
+  expected E st =
+  match st with
+  | MMkdir d n => if watched (e_roots E) d then [(child d n, Create, ""%string)] else []
+  | MFile d n mask => if watched (e_roots E) d then [(child d n, translate mask, ""%string)] else []
+  | MRenameDir d n d' n' => [(child d n, Rename, ""%string); (child d' n', Create, child d n)]
+  | MAddRec _ | MRemoveRec _ => []
+  end.
+Proof. exact (fun E st => eq_refl). Qed.
+
+(* the macro-history is literally a System history the inotify contract allows; it reaches the same state and none of
+   its API calls fails *)
+Theorem C19_expansion_is_valid_history : forall E0 h,
+  init_ok E0 = true -> mwf E0 h = true ->
+  valid cfgR (expand_all (E0, init_sys) h) init_sys = true /\
+  (run cfgR (expand_all (E0, init_sys) h) init_sys).1 = (mrun (E0, init_sys) h).2 /\
+  Forall (fun r => r = RNil) (run cfgR (expand_all (E0, init_sys) h) init_sys).2.
+Proof. exact expand_valid. Qed.
+
+(* a directory created inside the tree is covered from the moment its own Create has been delivered *)
+Theorem C19_new_dir_covered_all_histories : forall E0 h d n,
+  init_ok E0 = true -> mwf E0 (h ++ [MMkdir d n]) = true ->
+  let M := mrun (E0, init_sys) h in
+  let M' := mrun (E0, init_sys) (h ++ [MMkdir d n]) in
+  watched (e_roots M.1) d = true ->
+  evs M'.2 = evs M.2 ++ [(child d n, Create, ""%string)] /\
+  exists wd x, marks (K M'.2) !! wd = Some (e_next_ino M.1) /\ t_wd (W M'.2) !! wd = Some x /\
+          w_path x = child d n /\ w_rec x = true /\ t_path (W M'.2) !! child d n = Some wd /\
+          forall f mask, expected M'.1 (MFile (child d n) f mask) = [(child (child d n) f, translate mask, ""%string)].
+Proof. exact mkdir_covered_at_once_hist. Qed.
+
+(* renaming a directory within the tree: no watch is dropped or re-created; the directory and all its descendants are
+   covered and listed under the new location and no longer under the old; everything else keeps its path *)
+Theorem C19_rename_keeps_coverage : forall E0 h d n d' n',
+  init_ok E0 = true -> mwf E0 (h ++ [MRenameDir d n d' n']) = true ->
+  let old := child d n in let new := child d' n' in
+  let M := mrun (E0, init_sys) h in
+  let M' := mrun (E0, init_sys) (h ++ [MRenameDir d n d' n']) in
+  Covered M'.1 M'.2 /\
+  marks (K M'.2) = marks (K M.2) /\
+  (forall i rest, e_tree M.1 !! i = Some (old +:+ rest) -> comp_tail rest ->
+     exists wd x, marks (K M'.2) !! wd = Some i /\ t_wd (W M'.2) !! wd = Some x /\ w_path x = new +:+ rest /\
+             w_rec x = true /\ t_path (W M'.2) !! (new +:+ rest) = Some wd /\
+             t_path (W M'.2) !! (old +:+ rest) = None) /\
+  (forall i p, e_tree M.1 !! i = Some p -> watched (e_roots M.1) p = true -> is_under p old = false ->
+     exists wd x, marks (K M'.2) !! wd = Some i /\ t_wd (W M'.2) !! wd = Some x /\ w_path x = p /\
+             t_path (W M'.2) !! p = Some wd) /\
+  evs M'.2 = evs M.2 ++ [(old, Rename, ""%string); (new, Create, old)] /\ errs M'.2 = errs M.2.
+Proof. exact rename_keeps_coverage_hist. Qed.
+
+(* ... in particular a sibling whose name merely extends the renamed one as a string (dir1 / dir10), with its subtree *)
+Theorem C19_rename_spares_prefix_siblings : forall E s parent a b d' n' rest i,
+  Covered E s -> mstep_ok E (MRenameDir parent b d' n') = true ->
+  PathLexProofs.no_slash a -> a <> b -> comp_tail rest ->
+  e_tree E !! i = Some (parent +:+ "/" +:+ a +:+ rest) -> watched (e_roots E) (parent +:+ "/" +:+ a +:+ rest) = true ->
+  let M' := mstep_run (E, s) (MRenameDir parent b d' n') in
+  exists wd x, marks (K M'.2) !! wd = Some i /\ t_wd (W M'.2) !! wd = Some x /\
+          w_path x = parent +:+ "/" +:+ a +:+ rest /\ t_path (W M'.2) !! (parent +:+ "/" +:+ a +:+ rest) = Some wd.
+Proof. exact rename_spares_prefix_siblings. Qed.
+
+(* removing one of several recursive roots stops reports from exactly that tree: nothing below it is watched, listed or
+   expected any more; every other root's tree is covered as before; the call delivers nothing *)
+Theorem C19_remove_exactly_that_tree_all_histories : forall E0 h root,
+  init_ok E0 = true -> mwf E0 (h ++ [MRemoveRec root]) = true ->
+  let M := mrun (E0, init_sys) h in
+  let M' := mrun (E0, init_sys) (h ++ [MRemoveRec root]) in
+  Covered M'.1 M'.2 /\
+  (forall i p, e_tree M.1 !! i = Some p -> is_under p root = true ->
+     (forall wd, marks (K M'.2) !! wd <> Some i) /\ t_path (W M'.2) !! p = None /\
+     (forall wd x, t_wd (W M'.2) !! wd = Some x -> w_path x <> p) /\
+     watched (e_roots M'.1) p = false /\ forall n mask, expected M'.1 (MFile p n mask) = []) /\
+  (forall r i p, r ∈ e_roots M.1 -> r <> root -> e_tree M.1 !! i = Some p -> is_under p r = true ->
+     exists wd x, marks (K M'.2) !! wd = Some i /\ t_wd (W M'.2) !! wd = Some x /\ w_path x = p /\
+             t_path (W M'.2) !! p = Some wd) /\
+  evs M'.2 = evs M.2 /\ errs M'.2 = errs M.2.
+Proof. exact remove_exactly_that_tree_hist. Qed.
+
+(* the premises are satisfiable: two roots sharing a prefix, prefix-sharing siblings, nested mkdirs, an inner rename
+   with descendants, file operations at depth 4 after it, re-use of the old name, Remove of /t, activity in /t2/sub *)
+Example C19_example_history :
+  init_ok ex_env = true /\ mwf ex_env ex_h1 = true /\
+  evs (mrun ex_M0 ex_h1).2 =
+    [("/t/dir1", 1, ""); ("/t/dir10", 1, ""); ("/t/dir1/sub", 1, ""); ("/t/dir1/sub/deep", 1, "");
+     ("/t2/sub", 1, ""); ("/t/dir1/sub/f", 1, "");
+     ("/t/dir1", 8, ""); ("/t/dir10/mv", 1, "/t/dir1");
+     ("/t/dir10/mv/sub/deep/g", 2, ""); ("/t/dir10/h", 1, "");
+     ("/t/dir1", 1, ""); ("/t/dir1/again", 1, "");
+     ("/t2/sub/y", 16, ""); ("/t2/sub/deeper", 1, ""); ("/t2/sub/deeper/z", 4, "")]%string.
+Proof. vm_compute. repeat split; reflexivity. Qed.
+
+(* the three histories that went wrong with the earlier rename loop now behave *)
+Example C19_example_repaired :
+  (sys_step cfgR (mrun ex_M0 ex_ha).2 SList).2 = RList ["/t"; "/t/b"; "/t/b/s"]%string /\
+  evs (mrun ex_M0 ex_hb).2 =
+    [("/t/a", 1, ""); ("/t/a/s", 1, ""); ("/t/a", 8, ""); ("/t/b", 1, "/t/a");
+     ("/t/a", 1, ""); ("/t/a/f", 1, ""); ("/t/b/g", 1, ""); ("/t/b/s/k", 1, "")]%string /\
+  map_to_list (marks (K (mrun ex_M0 ex_hc).2)) = [] /\ errs (mrun ex_M0 ex_hc).2 = [].
+Proof. vm_compute. repeat split; reflexivity. Qed.
+
+Print Assumptions C19_rename_rekeys_index.
+Print Assumptions C19_covered_all_histories.
+Print Assumptions C19_events_true_paths_all_histories.
+Print Assumptions C19_expansion_is_valid_history.
+Print Assumptions C19_new_dir_covered_all_histories.
+Print Assumptions C19_rename_keeps_coverage.
+Print Assumptions C19_rename_spares_prefix_siblings.
+Print Assumptions C19_remove_exactly_that_tree_all_histories.
